@@ -237,16 +237,23 @@ func parseMp4File(w io.Writer, r io.Reader, codec string, verbose bool) error {
 		if trak.Tkhd.TrackID == trackID {
 			stbl := trak.Mdia.Minf.Stbl
 			var offset int64
-			if stbl.Stco != nil {
+			switch {
+			case stbl.Stco != nil && len(stbl.Stco.ChunkOffset) > 0:
 				offset = int64(stbl.Stco.ChunkOffset[0])
-			} else if stbl.Co64 != nil {
+			case stbl.Co64 != nil && len(stbl.Co64.ChunkOffset) > 0:
 				offset = int64(stbl.Co64.ChunkOffset[0])
+			default:
+				return fmt.Errorf("no chunk offset found in stco or co64")
 			}
 			size := stbl.Stsz.GetSampleSize(1)
 			// Next find bytes as slice in mdat
 			mdat := parsedMp4.Mdat
 			mdatPayloadStart := mdat.PayloadAbsoluteOffset()
 			offsetInMdatData := uint64(offset) - mdatPayloadStart
+			mdatDataLength := uint64(len(mdat.Data))
+			if uint64(offset) < mdatPayloadStart || offsetInMdatData > mdatDataLength || uint64(size) > mdatDataLength-offsetInMdatData {
+				return fmt.Errorf("first sample (offset %d, size %d) is outside the mdat payload", offset, size)
+			}
 			sampleData := mdat.Data[offsetInMdatData : offsetInMdatData+uint64(size)]
 			switch codec {
 			case "avc":
